@@ -45,6 +45,10 @@ def run(tier, seed):
             for _ in range(4 if th else 1):
                 ds, r, tag = rrgen.shift_case(rnd, kind=kind, n=n)
                 allc.append((ds, r, tag, rnd.choice([70, 130]), (2098, 12, 31)))
+    # business day shifts of up to a year and beyond (the README allows N up to 366)
+    for n in ([100, -100, 150, 200, -200, 250, -250, 255, 262, -262, 270, -270, 280, -280, 300, -300, 366, -366] * (4 if th else 1)):
+        ds, r, tag = rrgen.shift_case(rnd, kind=rnd.choice(['b', 'b+']), n=n)
+        allc.append((ds, r, tag, 70, (2098, 12, 31)))
     for _ in range(6000 if th else 260):
         ds, r, tag = rrgen.shift_case(rnd, kind=rnd.choice(['z', 'z', 'db', 'db', 'b', 'd']))
         allc.append((ds, r, tag, rnd.choice([70, 130, 200]), (2098, 12, 31)))
